@@ -1035,7 +1035,7 @@ def nt_fos_rej(case):
 
 # ------------------------------------------------------------------------------------------
 SUBCHECKS = [
-    SubCheck("fidelity", check_fidelity, _pair_case, nt_pair, quick=5000, thorough=90000),
+    SubCheck("fidelity", check_fidelity, _pair_case, nt_pair, quick=5000, thorough=90000, fuzz=6000),
     SubCheck("trace_distance", check_trace_distance, _pair_case, nt_pair, quick=5000, thorough=90000, shards=8),
     SubCheck("trace_triangle", check_triangle, _triple_case, nt_triple, quick=4000, thorough=70000, shards=8),
     SubCheck("hilbert_schmidt", check_hilbert_schmidt, _pair_case, nt_pair, quick=4000, thorough=60000, shards=8),
@@ -1047,7 +1047,7 @@ SUBCHECKS = [
     SubCheck("matsumoto", check_matsumoto, _mats_strategy, nt_mats, quick=4000, thorough=60000),
     SubCheck("relations", check_relations, _rel_case, nt_rel, quick=4000, thorough=60000),
     SubCheck("trace_norm", check_trace_norm, _tn_case, nt_tn, quick=4000, thorough=60000, shards=8),
-    SubCheck("rejects", check_rejects, _rej_case, nt_rej, quick=4000, thorough=40000, shards=8),
+    SubCheck("rejects", check_rejects, _rej_case, nt_rej, quick=4000, thorough=40000, shards=8, fuzz=6000),
     SubCheck("fos_product", check_fos_product, _fos_case, nt_fos, quick=40, thorough=600, shards=8, case_timeout=60),
     SubCheck("fos_rejects", check_fos_rejects, _fos_rej_case, nt_fos_rej, quick=160, thorough=2400, shards=8, case_timeout=60),
 ]
